@@ -242,6 +242,11 @@ class GF2Eval:
                 raise AnalysisError(f"gf2: keyword arguments in {unparse(e)}")
             if fn == "len" and len(args) == 1 and isinstance(args[0], (Bits, list, range)):
                 return len(args[0])
+            # methods of plain integers (widths and positions are concrete here)
+            if isinstance(e.func, ast.Attribute) and e.func.attr == "bit_length" and not args:
+                recv = self.ev(e.func.value, env)
+                if isinstance(recv, int):
+                    return recv.bit_length()
             if fn == "range" and all(isinstance(a, int) for a in args):
                 return range(*args)
             if fn == "reversed" and isinstance(args[0], (list, range)):
